@@ -18,6 +18,12 @@ func gapScenario(kind string, n int, batch bool) string {
 	gohbase.VerifSetSleepOverride(nil)
 	c := newSimCluster()
 	r := c.addRegion(nil, []byte("t"), nil, nil, "rs1:1")
+	if strings.HasPrefix(kind, "BOUNCE:") {
+		// the region is reported on rs1 and rs2 in turn; both accept it and then fail the request
+		kind = strings.TrimPrefix(kind, "BOUNCE:")
+		r.bounce = []string{"rs2:1", "rs1:1"}
+		defer func() { _ = 0 }()
+	}
 	sc := newSimClient(c)
 	defer sc.cl.Close()
 	g0, _ := hrpc.NewGet(context.Background(), []byte("t"), []byte("warm"))
@@ -60,7 +66,11 @@ func gapScenario(kind string, n int, batch bool) string {
 	if batch {
 		api = "batch"
 	}
-	return fmt.Sprintf("c17 gaps %s %s %d %s %s", api, strings.Replace(kind, "REQ:", "req-", 1), n, res, strings.Join(atts, ";"))
+	label := strings.Replace(kind, "REQ:", "req-", 1)
+	if len(r.bounce) > 0 {
+		label = "bounce-" + label
+	}
+	return fmt.Sprintf("c17 gaps %s %s %d %s %s", api, label, n, res, strings.Join(atts, ";"))
 }
 
 func init() { props["C17"] = runC17 }
@@ -159,7 +169,8 @@ func runC17(tier string, seed uint64, out *Out) {
 		batch bool
 	}
 	jobs := []job{{"retryable", false}, {"connErr", false}, {"nsre", false}, {"retryable", true}, {"connErr", true}, {"nsre", true},
-		{"REQ:connErr", false}, {"REQ:connErr", true}, {"REQ:nsre", true}}
+		{"REQ:connErr", false}, {"REQ:connErr", true}, {"REQ:nsre", true},
+		{"BOUNCE:REQ:connErr", false}, {"BOUNCE:REQ:connErr", true}}
 	lines := make([]string, len(jobs))
 	var wg2 sync.WaitGroup
 	for i, j := range jobs {
